@@ -4,7 +4,10 @@
 Each mutant in /verif/checker/mutants.json is an exact (file, old, new) edit.
 It is applied to a scratch copy of the CURRENT /repo tree (outside /repo and
 /verif), the copy must still build, and the property's check must report a
-VIOLATION that names the expected rule.  A mutant whose `old` text no longer
+VIOLATION that names the expected rule.  An entry with "expect": "pass" is
+the opposite: a behaviour-preserving rewrite of the code a rule looks at
+(benign variant); the check must stay silent on it, an alarm is reported as
+false-alarm and fails the run.  A mutant whose `old` text no longer
 occurs (or that no longer builds) is reported as stale, not as a failure.  An
 unkilled mutant is a CHECKER-ERROR (the rule lost its teeth): exit 2.
 The scratch copy is removed after each mutant.
@@ -37,6 +40,10 @@ def run_one(m, repo, tests):
         r = subprocess.run([os.path.join(HERE, "bin", "shovelcheck"), "-prop", m["prop"], "-repo", dst, "-noevidence",
                             "-known", os.path.join(HERE, "known_findings.json")], env=ENV, capture_output=True, text=True)
         out = r.stdout
+        if m.get("expect") == "pass":
+            if r.returncode == 0 and "VIOLATION" not in out and "CHECKER-ERROR" not in out:
+                return "silent", ""
+            return "false-alarm", "exit %d: %s" % (r.returncode, "; ".join(l for l in out.split("\n") if l.startswith(("VIOLATION", "CHECKER-ERROR", "  [violated]")))[:800])
         if r.returncode == 1 and "VIOLATION property=" + m["prop"] in out:
             want = m.get("rule")
             if want and ("rule " + want + " ") not in out:
@@ -63,18 +70,19 @@ def main():
         st, why = run_one(m, a.repo, a.tests)
         res.append({"name": m["name"], "rule": m.get("rule"), "status": st, "detail": why[:300]})
         print("mutant %-4s %-45s %-10s %s" % (m["prop"], m["name"], st, why[:200].replace("\n", " ")))
-        if st in ("survived", "wrong-rule"):
+        if st in ("survived", "wrong-rule", "false-alarm"):
             bad += 1
     if a.evidence and os.path.exists(a.evidence):
         ev = json.load(open(a.evidence))
         ev["coverage"]["mutants"] = res
         ev["coverage"]["mutants_killed"] = sum(1 for r in res if r["status"] == "killed")
+        ev["coverage"]["benign_variants_silent"] = sum(1 for r in res if r["status"] == "silent")
         ev["coverage"]["mutants_stale"] = sum(1 for r in res if r["status"] == "stale")
         ev["coverage"]["mutants_total"] = len(res)
         ev["wall_s"] = ev.get("wall_s", 0) + time.time() - t0
         json.dump(ev, open(a.evidence, "w"), indent=1)
     if bad:
-        print("CHECKER-ERROR property=%s %d mutant(s) not killed: the rule lost its teeth" % (a.prop, bad))
+        print("CHECKER-ERROR property=%s %d mutant(s) not killed or benign variant(s) flagged: the rule lost its teeth / raises false alarms" % (a.prop, bad))
         sys.exit(2)
     sys.exit(0)
 
